@@ -421,12 +421,18 @@ func (vc *VC) hget(h *Heap, comp string) string {
 	n := qsym(fmt.Sprintf("%s@e%d", comp, h.epoch))
 	vc.declConst(n, sort)
 	vc.wellFormedComp(comp, n)
-	if sort == "(Array Int Slice)" && comp != compAlloc {
-		// heap closedness: every slice stored in the heap of this epoch
-		// refers to an array allocated before the epoch's allocation counter
+	if (sort == "(Array Int Slice)" || vc.w.compRefLike[comp]) && comp != compAlloc && !strings.HasPrefix(comp, "G$") {
+		// heap closedness: every slice / reference stored in an object that
+		// exists in the heap of this epoch refers to something allocated
+		// before the epoch's allocation counter (entries of not yet allocated
+		// objects are unconstrained: a callee's fresh objects live there)
 		vc.compDecl(compAlloc, sortInt)
 		a := vc.hget(&Heap{m: map[string]string{}, epoch: h.epoch}, compAlloc)
-		vc.decl("closed:"+n, fmt.Sprintf("(assert (forall ((a Int)) (! (< (s-arr (select %s a)) %s) :pattern ((select %s a)))))", n, a, n))
+		val := fmt.Sprintf("(select %s a)", n)
+		if sort == "(Array Int Slice)" {
+			val = "(s-arr " + val + ")"
+		}
+		vc.decl("closed:"+n, fmt.Sprintf("(assert (forall ((a Int)) (! (=> %s (< %s %s)) :pattern ((select %s a)))))", vc.existedAt("a", a), val, a, n))
 	}
 	if comp == compAlloc {
 		vc.decl("allocpos:"+n, "(assert (< 0 "+n+"))")
